@@ -10,6 +10,7 @@ from ..atoms import Atomizer, must_facts
 from ..effects import effects_of
 from ..tables import extract_dictionary
 from .. import astutil as A
+from .common_codec import no_hidden_state
 
 TECHNIQUE = "layout/format/constant extraction from the AST with constant folding; sibling " \
             "agreement (getter vs setter, writer vs reader) against the RFC 6733 tables"
@@ -171,6 +172,10 @@ def run(ctx: Ctx):
     _time(ctx, model, mod)
     _address(ctx, model, mod, E)
     _dictionary(ctx, model, mod, avp)
+    # no codec function of the AVP module keeps state between calls (the dictionaries live in
+    # .dictionary and are the documented registry)
+    codec_funcs = [f for f in model.all_funcs() if f.module is mod]
+    no_hidden_state(ctx, "C01-R8", codec_funcs, {"AVP_DICTIONARY", "AVP_VENDOR_DICTIONARY"})
 
 
 def _in_try_raising(f, node, E, caught: str, raised: str) -> bool:
@@ -502,6 +507,25 @@ def _address(ctx: Ctx, model, mod, E):
     if norm != want:
         ctx.fail(cons, s_.loc(), f"address families written: {st}; RFC 6733/IANA: 1=IPv4 (4 bytes), "
                  f"2=IPv6 (16 bytes), 8=E.164 (text), 16-bit big-endian family prefix")
+    # a variable-width `s` field is as wide as the bytes packed into it (struct truncates or
+    # zero-pads silently otherwise)
+    cons = "AvpAddress.value:setter-width"
+    ctx.inst(cons)
+    for c in _struct_calls(E, s_, "pack"):
+        fmt = c.args[0] if c.args else None
+        if not isinstance(fmt, ast.JoinedStr):
+            continue
+        widths = [v.value for v in fmt.values if isinstance(v, ast.FormattedValue)]
+        data = c.args[len(c.args) - len(widths):] if widths else []
+        for w, d in zip(widths, data):
+            wt = A.resolve_local_chain(s_.node, w).replace(" ", "")
+            dt = A.resolve_local_chain(s_.node, d).replace(" ", "")
+            # locals reassigned before the call (x = x.encode()) are compared by name
+            if wt != f"len({dt})" and ast.unparse(w).replace(" ", "") != f"len({ast.unparse(d).replace(' ', '')})":
+                ctx.fail(cons, s_.loc(c), f"the width of the packed field is `{ast.unparse(w)}` but the "
+                         f"bytes packed are `{ast.unparse(d)}`: when the two lengths differ (e.g. a "
+                         f"non-ASCII text whose UTF-8 form is longer than its character count) "
+                         f"struct silently truncates the value")
     # getter
     g = cfg_of(g_)
     at = Atomizer(model, mod, ci)
@@ -645,6 +669,18 @@ def _dictionary(ctx: Ctx, model, mod, avp):
         if not ok:
             ctx.fail(cons, f.loc(), f"{f.qualname} does not take the AVP type from "
                      f"get_avp_dictionary_entry(code, vendor)['type']")
+        else:
+            # ... on every call: the lookup is not skipped on some path (memoised misses, caches)
+            gd = cfg_of(f)
+            look = [n for n in gd.nodes if any(A.call_name(c) == "get_avp_dictionary_entry" for c in n.calls())]
+            rets_ = [n for n in gd.nodes if n.kind == "stmt" and isinstance(n.ast, ast.Return)]
+            for r in rets_:
+                if not gd.dominated(r, look):
+                    ctx.fail(cons + "#every-call", gd.loc(r), f"{f.qualname} can return an AVP without "
+                             f"consulting get_avp_dictionary_entry on that call: the type comes from "
+                             f"state remembered from earlier calls, so an AVP registered in between "
+                             f"is still decoded/created with the old type")
+                    break
     cons = "Avp.new:default-mandatory"
     ctx.inst(cons)
     gn = cfg_of(nw)
